@@ -39,10 +39,8 @@ class RawTok(Model):
         return RawTok(("astype", self.origin, repr(dtype)), self.shape, dtype)
 
     def _bin(self, op, o):
-        oo = getattr(o, "origin", o)
-        if op in "*/" and oo == 1.0:
-            return self
-        return RawTok((op, self.origin, oo), self.shape)
+        # note: buffer * 1.0 is NOT the buffer (an integer buffer becomes float64: values above 2**53 are rounded)
+        return RawTok((op, self.origin, getattr(o, "origin", o)), self.shape)
 
     def __mul__(self, o):
         return self._bin("*", o)
